@@ -119,6 +119,11 @@ EXPORT errno_t _wcsicmp_s_chk(const wchar_t *restrict dest, rsize_t dmax,
     }
 
     d1 = (wchar_t *)malloc(2 * destsz);
+    if (unlikely(!d1)) {
+        invoke_safe_str_constraint_handler("wcsicmp_s: out of memory",
+                                           (void *)dest, ENOMEM);
+        return RCNEGATE(ENOMEM);
+    }
     rc = wcsfc_s(d1, dmax * 2, (wchar_t * restrict) dest, &l1);
     if (rc != EOK) {
         free(d1);
@@ -126,6 +131,12 @@ EXPORT errno_t _wcsicmp_s_chk(const wchar_t *restrict dest, rsize_t dmax,
     }
 
     d2 = (wchar_t *)malloc(2 * srcsz);
+    if (unlikely(!d2)) {
+        free(d1);
+        invoke_safe_str_constraint_handler("wcsicmp_s: out of memory",
+                                           (void *)dest, ENOMEM);
+        return RCNEGATE(ENOMEM);
+    }
     rc = wcsfc_s(d2, smax * 2, (wchar_t * restrict) src, &l2);
     if (rc != EOK) {
         free(d1);
